@@ -69,7 +69,7 @@ Opt(name, S, p) == IF Maybe(p) THEN << <<name, Pick(S), IF Maybe(30) THEN 1 ELSE
 PaintAttrs(n_) ==
      Opt("fill", Colors \cup {"none", "black"}, IF Focus \in {"paint", "mixed"} THEN 60 ELSE 45)
   \o Opt("fill-opacity", {0, 1, 2, -1}, IF Focus = "paint" THEN 35 ELSE 8)
-  \o Opt("opacity", {0, 1, 2, -1}, IF Focus = "paint" THEN 40 ELSE 8)
+  \o Opt("opacity", {0, 1, 2, 1, 2, -1}, IF Focus = "paint" THEN 45 ELSE 8)
   \o Opt("fill-rule", {"nonzero", "evenodd"}, 25)
   \o Opt("display", {"none", "inline"}, IF Focus = "paint" THEN 10 ELSE 4)
 
@@ -155,7 +155,7 @@ AddSvg ==
          tf  == IF Maybe(30) THEN << <<"transform", <<Pick(TfOps)>>, 0>> >> ELSE <<>>
      IN Push([d |-> Depth, tag |-> "svg", id |-> "",
               at |-> tf,
-              g |-> <<Pick({0, 2, 4}), Pick({0, 1, 4}), Pick({8, 12, 16}), Pick({8, 10, 16}), vb, par,
+              g |-> <<Pick({0, 2, 4}), Pick({0, 1, 4}), Pick({8, 12, 16, -1}), Pick({8, 10, 16, -1}), vb, par,
                       IF tf # <<>> THEN "visible" ELSE Pick({"", "hidden", "visible", "visible"})>>,
               ref |-> ""])
 
@@ -178,13 +178,40 @@ Doc == [vb |-> <<0, 0, 16, 16>>, root |-> RootAttrs(Len(nodes)),
 
 Init == nodes = <<>> /\ open = <<>> /\ done = FALSE
 
+(* weighted choice of the next construction step (percent), per focus *)
+Kind(n_) ==
+  LET r == Pick(1..100)
+      W == CASE Focus = "paint"  -> <<40, 28, 0, 0, 8, 0, 18>>
+             [] Focus = "clip"   -> <<38, 14, 4, 18, 8, 0, 14>>
+             [] Focus = "struct" -> <<40, 16, 5, 0, 12, 9, 14>>
+             [] OTHER            -> <<36, 14, 5, 10, 10, 7, 14>>
+      \* shape, g, defs, clipPath, use, svg, close  (remainder: finish)
+  IN IF r <= W[1] THEN "shape"
+     ELSE IF r <= W[1] + W[2] THEN "g"
+     ELSE IF r <= W[1] + W[2] + W[3] THEN "defs"
+     ELSE IF r <= W[1] + W[2] + W[3] + W[4] THEN "clipPath"
+     ELSE IF r <= W[1] + W[2] + W[3] + W[4] + W[5] THEN "use"
+     ELSE IF r <= W[1] + W[2] + W[3] + W[4] + W[5] + W[6] THEN "svg"
+     ELSE IF r <= W[1] + W[2] + W[3] + W[4] + W[5] + W[6] + W[7] THEN "close"
+     ELSE "finish"
+
+CanClose == open # <<>> /\ (nodes[Len(nodes)].tag \notin Containers \/ Len(nodes) > open[Len(open)])
+
 Grow == /\ ~done /\ Len(nodes) < MaxNodes
-        /\ (AddShape \/ AddShape \/ AddGroup \/ AddDefs \/ AddClipPath \/ AddUse \/ AddSvg \/ CloseOne)
         /\ UNCHANGED done
+        /\ LET k == Kind(Len(nodes))
+           IN IF k = "g" /\ ENABLED AddGroup THEN AddGroup
+              ELSE IF k = "defs" /\ ENABLED AddDefs THEN AddDefs
+              ELSE IF k = "clipPath" /\ ENABLED AddClipPath THEN AddClipPath
+              ELSE IF k = "use" /\ ENABLED AddUse THEN AddUse
+              ELSE IF k = "svg" /\ ENABLED AddSvg THEN AddSvg
+              ELSE IF k = "close" /\ CanClose THEN CloseOne
+              ELSE IF k = "finish" /\ Len(nodes) >= 2 THEN FALSE
+              ELSE AddShape
 
 (* a container that was opened last and is still empty would be an empty element: allowed *)
 Finish == /\ ~done /\ Len(nodes) >= 1
-          /\ (Len(nodes) >= MaxNodes \/ Maybe(12))
+          /\ (Len(nodes) >= MaxNodes \/ ~ENABLED Grow)
           /\ done' = TRUE
           /\ PrintT("CASE " \o ToJson(Doc))
           /\ UNCHANGED <<nodes, open>>
